@@ -106,6 +106,10 @@ def process_double(ck, case):
 
 def process_double_sampling(ck, rng):
     m = doubles.random_model(rng, n_dim=2, cond=[None, 0])
+    if rng.integers(0, 6) == 0:
+        # every parameter fixed (no dependence function at all): still one realisation per conditioning value
+        m.s[1] = doubles.Dep("fixed", [float(rng.uniform(0.5, 2.0))])
+        m.l[1] = doubles.Dep("fixed", [float(rng.choice([0.0, 0.25]))])
     k = int(rng.choice([1, 3, 40]))
     gs = 10 ** rng.uniform(-1, 1.3, k)
     int_given = bool(rng.integers(0, 3) == 0)
